@@ -377,6 +377,7 @@ func main() {
 	prepare()
 	runHighLevel() // first: later sub-spaces attribute failures of mixed texts to failing driver scripts
 	runDecode()
+	runCheckWordValues()
 	runDamage()
 	runModeMessage()
 	runReader()
